@@ -572,11 +572,12 @@ class Statechart:
             self.add_state(statechart_copy.state_for(new_name),
                            statechart_copy.parent_for(new_name))
 
-        # Copy transitions
-        transitions = set()
-        for name in [source_name] + statechart_copy.descendants_for(source_name):
-            transitions.update(statechart_copy.transitions_from(name))
-            transitions.update(statechart_copy.transitions_to(name))
+        # Copy transitions (every registered transition once, even if it is equal to another one)
+        involved = [source_name] + statechart_copy.descendants_for(source_name)
+        transitions = [
+            transition for transition in statechart_copy.transitions
+            if transition.source in involved or transition.target in involved
+        ]
         for transition in transitions:
             try:
                 self.add_transition(transition)
